@@ -42,6 +42,7 @@ type pxTCPL struct {
 	ln   *net.TCPListener
 }
 type pxConn struct {
+	peer      string // "ip:port" of the driver's listener that accepted a connection the proxy dialled
 	ephem     string // "ip:port" of the proxy's end of a connection the proxy dialled
 	id        int
 	c         net.Conn
@@ -63,7 +64,20 @@ var pxOnce sync.Once
 var pxSeenBranches = map[string]bool{}
 var pxBranchRe = regexp.MustCompile(`^(?i:via|v)\s*:\s*SIP/2\.0/(?:UDP|TCP) ([0-9.]+):(\d+);branch=(z9hG4bK[0-9a-f]{12})\s*$`)
 
-func init() { components["proxy"] = runProxyCase }
+// "proxytb": the same driver; its cases configure tcp:// backends and use two more event kinds (bdata / bclose: the
+// connection the proxy has open TO a peer address, whichever number it got)
+func init() { components["proxy"] = runProxyCase; components["proxytb"] = runProxyCase }
+
+// the most recent connection the proxy dialled to ip:port that is still open
+func (pc *pxCase) dialledTo(ip string, port int) int {
+	id := -1
+	for _, c := range pc.conns {
+		if c.li == -1 && !c.eof && c.peer == ip+":"+strconv.Itoa(port) {
+			id = c.id
+		}
+	}
+	return id
+}
 
 func nbRecv(rc syscall.RawConn) (data []byte, eof bool, ok bool) {
 	buf := make([]byte, 70000)
@@ -213,7 +227,7 @@ func (pc *pxCase) drain(e int) (outs []pxOut, closed []int) {
 			if c == nil {
 				break
 			}
-			cn := &pxConn{id: pc.nextConn, c: c, li: -1, ephem: c.RemoteAddr().String()}
+			cn := &pxConn{id: pc.nextConn, c: c, li: -1, ephem: c.RemoteAddr().String(), peer: l.ip + ":" + strconv.Itoa(l.port)}
 			pc.nextConn++
 			pc.conns = append(pc.conns, cn)
 			outs = append(outs, pxOut{"dial:" + l.ip + ":" + strconv.Itoa(l.port), []byte(strconv.Itoa(cn.id))})
@@ -468,7 +482,7 @@ func runProxyCase(k *toks, o *out) {
 	waits := map[int]int{}
 	{
 		p := k.pos
-		width := map[string]int{"udp": 4, "accept": 3, "data": 2, "close": 1, "badd": 2, "brem": 2}
+		width := map[string]int{"udp": 4, "accept": 3, "data": 2, "close": 1, "badd": 2, "brem": 2, "bdata": 3, "bclose": 2}
 		ok := true
 		for e := 0; e < nev && ok; e++ {
 			if p >= len(k.t) {
@@ -494,6 +508,13 @@ func runProxyCase(k *toks, o *out) {
 			time.Sleep(time.Duration(w) * time.Millisecond)
 		}
 		kind := k.str()
+		// bdata / bclose name a connection by the peer the proxy dialled (-1: there is none, the event does nothing)
+		named := -2
+		if kind == "bdata" || kind == "bclose" {
+			ip, port := k.str(), k.int()
+			named = pc.dialledTo(ip, port)
+			kind = map[string]string{"bdata": "data", "bclose": "close"}[kind]
+		}
 		switch kind {
 		case "udp":
 			li, ip, port, data := k.int(), k.str(), k.int(), pc.subst(k.bytes())
@@ -532,7 +553,11 @@ func runProxyCase(k *toks, o *out) {
 			c.Write(pc.barrierMsg("TCP"))
 			pc.waitBarrier(cn)
 		case "data":
-			cid, data := k.int(), pc.subst(k.bytes())
+			cid := named
+			if cid == -2 {
+				cid = k.int()
+			}
+			data := pc.subst(k.bytes())
 			var cn *pxConn
 			for _, c := range pc.conns {
 				if c.id == cid {
@@ -554,7 +579,10 @@ func runProxyCase(k *toks, o *out) {
 				}
 			}
 		case "close":
-			cid := k.int()
+			cid := named
+			if cid == -2 {
+				cid = k.int()
+			}
 			for _, c := range pc.conns {
 				if c.id == cid && !c.eof {
 					c.selfClose = true
